@@ -78,7 +78,11 @@ fn const_value(d: &mut Dec, depth: u32) -> (Expr, Value) {
 }
 
 fn non_constant(d: &mut Dec) -> Expr {
-    match d.below(8) {
+    match d.below(12) {
+        8 => Expr::neg(Expr::Value(Value::Int(i128::MIN))),
+        9 => Expr::neg(Expr::Value(crate::pool::dec((1i128 << 96) - 1, 0))),
+        10 => Expr::Vec(vec![Expr::neg(Expr::neg(Expr::Value(Value::Int(i128::MIN))))]),
+        11 => Expr::Map([("k".to_string(), Expr::not(Expr::Value(Value::Int(i128::MIN))))].into_iter().collect()),
         0 => Expr::neg(Expr::value(1)),
         1 => Expr::add(Expr::value(1), Expr::value(2)),
         2 => Expr::reff("a"),
